@@ -137,11 +137,93 @@ def one(xs):
 # GROUP-ORDER / EXT-SET
 # ---------------------------------------------------------------------------
 
+#: parity-check matrices the Tanner-graph tables are tabulated on: regular, irregular with leaves and a degree-1 check,
+#: equal degrees that are NOT adjacent (runs must not be merged), a single check
+PREP_SAMPLES = (
+    [[1, 1, 0, 1, 0, 0], [0, 1, 1, 0, 1, 0], [1, 0, 1, 0, 0, 1]],
+    [[1, 1, 1, 0, 0], [0, 1, 0, 1, 0], [1, 1, 0, 0, 1], [0, 0, 0, 1, 0]],
+    [[1, 0, 1, 1, 0, 1, 1], [1, 1, 1, 0, 0, 0, 1], [0, 0, 1, 0, 1, 1, 1]],
+    [[1, 1, 1]],
+)
+
+
+def prep_edge_tabulated(repo: Repo):
+    """prep_edge_ind (class helpers followed) evaluated with own arithmetic on four parity-check matrices; every table it
+    leaves on the object is compared with its definition computed from H: edges numbered variable by variable (checks in
+    increasing order), groups = runs of consecutive nodes of one degree, edge_map / marg_ec = the edges of a variable,
+    lv_ind = the variable of an edge, cv_map = the edges of a check in variable order, row j of ext_ec[v] / ext_ce[c] = the
+    node's edges without its j-th, cv_order = the position of an edge in check-major order."""
+    from ..constfold import Unfoldable
+    from ..frag import FragRaise, FragReturn, run_fragment
+
+    ci = repo.cls(BP, "BeliefPropagationDecoder")
+    fi = repo.method(ci, "prep_edge_ind")
+    funcs = {f"self.{nm}": m.node for nm, m in ci.methods.items() if nm not in ("forward", "__init__", "prep_edge_ind")}
+
+    def plain(z):
+        return [plain(t) for t in z] if isinstance(z, list) else (int(z) if isinstance(z, float) and z == int(z) else z)
+
+    for H in PREP_SAMPLES:
+        n_c, n_v = len(H), len(H[0])
+        vdeg = [sum(H[r][c] for r in range(n_c)) for c in range(n_v)]
+        cdeg = [sum(r) for r in H]
+        attrs = {"self.H": [list(r) for r in H], "self.n_v": n_v, "self.n_c": n_c, "self.var_degree": list(vdeg), "self.check_degree": list(cdeg), "self.chk_degree": list(cdeg), "self.num_edges": sum(vdeg), "self.device": "cpu", "self.code_length": n_v}
+        try:
+            run_fragment(fi.body, {}, attrs, funcs=funcs, materialise=True, max_steps=1500000, attrs_live=True)
+        except FragReturn:
+            pass
+        except (Unfoldable, FragRaise, TypeError, IndexError, ValueError, KeyError) as exc:
+            return None, str(exc)
+        # own reference
+        edge_map, lv_ind, cv_map = [], [], [[] for _ in range(n_c)]
+        e = 0
+        for v in range(n_v):
+            mine = []
+            for c in range(n_c):
+                if H[c][v]:
+                    mine.append(e)
+                    lv_ind.append(v)
+                    cv_map[c].append(e)
+                    e += 1
+            edge_map.append(mine)
+
+        def runs(deg):
+            out = []
+            for i, d in enumerate(deg):
+                if out and deg[out[-1][-1]] == d:
+                    out[-1].append(i)
+                else:
+                    out.append([i])
+            return out
+
+        def others(edges):
+            return [[x for k, x in enumerate(edges) if k != j] for j in range(len(edges))] if len(edges) > 1 else []
+
+        order = [x for c in range(n_c) for x in cv_map[c]]
+        cv_order = [0] * len(order)
+        for k, x in enumerate(order):
+            cv_order[x] = k
+        want = {"self.vc_group": runs(vdeg), "self.cv_group": runs(cdeg), "self.edge_map": edge_map, "self.lv_ind": lv_ind, "self.cv_map": cv_map, "self.marg_ec": edge_map, "self.cv_order": cv_order, "self.ext_ec": [others(m) for m in edge_map], "self.ext_ce": [others(m) for m in cv_map]}
+        for k, w in want.items():
+            if k not in attrs:
+                return None, f"{k} is not left on the object"
+            g = plain(attrs[k])
+            if g != w:
+                return VIOLATION, f"H = {H}: {k[5:]} is built as {str(g)[:160]}; its definition gives {str(w)[:160]} (" + {"self.vc_group": "groups are runs of consecutive variable nodes of one degree: per-group messages concatenated in group order must follow the node order", "self.cv_group": "groups are runs of consecutive check nodes of one degree", "self.ext_ec": "row j lists the OTHER edges of the variable node", "self.ext_ce": "row j lists the OTHER edges of the check node", "self.cv_order": "position of each edge in check-major order"}.get(k, "edge bookkeeping of the Tanner graph") + ")"
+    return OK, f"all nine tables (groups, edge maps, extrinsic index sets, check-major order) equal their definitions on {len(PREP_SAMPLES)} parity-check matrices (regular, irregular with leaves, non-adjacent equal degrees, a single check)"
+
+
 def rule_groups(repo: Repo, rep: Report) -> int:
     ci = repo.cls(BP, "BeliefPropagationDecoder")
     fi = repo.method(ci, "prep_edge_ind")
     set_parents(fi.node)
     n = 0
+    pst_, pd_ = prep_edge_tabulated(repo)
+    if pst_ is not None:
+        ext_ = pst_ == VIOLATION and (": ext_ec is built" in pd_ or ": ext_ce is built" in pd_)
+        rep.add("GROUP-ORDER", fi, "prep_edge_ind evaluated on four parity-check matrices: groups, edge maps, check-major order against their definitions", OK if ext_ else pst_, pd_ if not ext_ else "groups, edge maps and check-major order equal their definitions", node=fi.node)
+        rep.add("EXT-SET", fi, "prep_edge_ind evaluated on four parity-check matrices: extrinsic index sets against their definition", pst_ if (ext_ or pst_ == OK) else OK, pd_ if (ext_ or pst_ == OK) else "not reached: an earlier table differs (see GROUP-ORDER)", node=fi.node) if (ext_ or pst_ == OK) else None
+        return 14
     for lv, group, deg, count in (("v_node", "vc_group", "var_degree", "n_v"), ("c_node", "cv_group", "check_degree", "n_c")):
         loops = [l for l in fi.body if isinstance(l, ast.For) and match(l.iter, f"range(self.{count})") is not None]
         if len(loops) != 1 or not isinstance(loops[0].target, ast.Name):
